@@ -31,7 +31,13 @@ META = dict(
                  "geoVI clause only on linear models (as the property states)",
                  "point estimates given as tuples of keys (the boolean-pytree form is not hashable "
                  "under NIFTy's own jit of the metric)",
-                 "complex latent spaces are not generated"],
+                 "complex latent spaces are not generated",
+                 "flipping the sign of one of the two independent white components (prior / likelihood "
+                 "sample) leaves the distribution unchanged and is therefore not a violation (DESIGN "
+                 "mutant 'prior sample with wrong sign' is an equivalent mutant for L L^T)",
+                 "classic geoVI only with diagonal noise (SandwichOperator, used for dense noise, "
+                 "carries no sampling_dtype, which geoVI's get_transformation needs)",
+                 "JAX cases are not started with < 30 s of budget left (counted as skipped)"],
     need=["cl_cov_compared", "re_cov_compared", "cl_mirror_bitwise", "re_mirror_bitwise",
           "cl_pe_zero_checked", "re_pe_zero_checked", "cl_geovi_unchanged", "re_nonlinear_unchanged",
           "cl_sample_mean", "re_sample_mean", "smoke_chi2"],
